@@ -298,14 +298,21 @@ def render_events(P, fmt, sep=""):
     return "\n".join(fert) + "\n", "\n".join(til) + "\n", "\n".join(irr) + "\n"
 
 
+def endit_rows(P, fmt, sep="", ident="ALLE"):
+    """[tokens] of the measurement rows: id date Nm03 Nm36 Nm69 M W03 W36 W69 [NM9-12 NM12-15 NM15-20 W9-12 W12-15 W15-20];
+    P.endit = one row tuple (date, values...) or a list of (ident, tuple)"""
+    rows = P.endit if isinstance(P.endit, list) else [(ident, P.endit)]
+    return [[i_, fmt_date(e[0], fmt, sep)] + list(e[1:]) for i_, e in rows]
+
+
 def render_endit(P, fmt, kind, sep="", ident="ALLE"):
-    e = P.endit
-    d = fmt_date(e[0], fmt, sep)
+    """exactly MeasModel.render_meas_txt / render_meas_csv"""
+    rows = endit_rows(P, fmt, sep, ident)
     if kind == "csv":
-        return ("Plot_ID,Date,Nm03,Nm36,Nm69,M,W0_3,W3_6,W6_9,NM9-12,NM12-15,NM15-20,W9-12,W12-15,W15-20\n" +
-                ",".join((ident, d) + tuple(e[1:])) + "\n")
-    return ("Plot_ID   Date     Nm03 Nm36 Nm69 M W0_3  W3_6  W6_9  NM9-12 NM12-15 NM15-20  W9-12 W12-15 W15-20 \n" +
-            "%-9s %s " % (ident, d) + " ".join(e[1:]) + " \nend\n")
+        return "\n".join(["Plot_ID,Date,Nm03,Nm36,Nm69,M,W0_3,W3_6,W6_9,NM9-12,NM12-15,NM15-20,W9-12,W12-15,W15-20"] +
+                         [",".join(t) for t in rows] + ["end"]) + "\n"
+    return "\n".join(["Plot_ID Date Nm03 Nm36 Nm69 M W0_3 W3_6 W6_9 NM9-12 NM12-15 NM15-20 W9-12 W12-15 W15-20"] +
+                     ["".join(x + " " for x in t) for t in rows] + ["end"]) + "\n"
 
 
 def render_soil(P, kind):
@@ -476,13 +483,13 @@ def base_project(rnd, crops=(("SM", ""), ("SOY", "000")), years=(1980, 1983), so
 TEXTURES = ["SS ", "SL2", "SL3", "SL4", "SU3", "ULS", "LS2", "LT2", "UT3", "LU ", "TU3", "ST2"]
 
 
-def gen_soil(rnd, hydraulic=None):
+def gen_soil(rnd, hydraulic=None, total=20):
     """hydraulic=False: field capacity / wilting point / pore volume left blank (the table route: texture, density
     class and stone content decide)"""
     if hydraulic is None:
         hydraulic = rnd.random() < 0.5
-    n = 1 + rnd.randrange(4)
-    depth = sorted(rnd.sample(range(2, 20), n - 1)) + [20] if n > 1 else [20]
+    n = 1 + rnd.randrange(min(4, max(1, total - 1)))
+    depth = sorted(rnd.sample(range(1, total), n - 1)) + [total] if n > 1 else [total]
     hs = []
     for i in range(n):
         fc = rnd.randrange(18, 40)
